@@ -2,6 +2,7 @@ import ZapVerif.Model.Console
 import ZapVerif.Proofs.EntryWF
 import ZapVerif.Proofs.Spaced
 import ZapVerif.Gen.EntryMeta
+import ZapVerif.Proofs.SubEnc
 /-! # C16 — console encoder lines have the documented shape with a valid JSON context -/
 namespace ZapVerif.C16
 open ZapVerif ZapVerif.Esc ZapVerif.Json ZapVerif.Enc ZapVerif.Entry ZapVerif.Console
@@ -104,5 +105,53 @@ example :
     consoleLine ⟨[109], [108], [], [], [], [], [], [], false⟩ [] ⟨0, .noop, none, [], .noop, false, .noop, [], [], [104, 105], []⟩
       ⟨none, some [73, 78, 70, 79], none, none⟩ [] [.prim [107] (.scalar (.int 1))] =
     [73, 78, 70, 79, 9, 104, 105, 9, 123, 34, 107, 34, 58, 32, 49, 125, 10] := by decide +kernel
+
+/-! ------------------------------------------------------------------------------------------------------------------
+## built-in sub-encoders (BEGIN block `subenc`; model `Model/SubEnc.lean`, lemmas `Proofs/SubEnc.lean`)
+
+The column texts of the built-in exact encoders are computed by the model (`SubEnc.colOf` of the computed result:
+`fmt.Fprint` of the one string / int64 the function appended), no longer supplied by the harness. -/
+section SubEncoders
+open ZapVerif.SubEnc
+
+/-- the columns of an entry under built-in exact encoders -/
+def builtinCols (lk : LvlEnc) (ck : CallerEnc) (level : Int) (timeC : Option Bytes) (name : Bytes)
+    (defined : Bool) (file : Bytes) (line : Int) : Cols :=
+  ⟨timeC, colOf (lvlRes (some lk) .noop level) none, colOf (nameRes true .noop name) none,
+   colOf (callerRes (some ck) .noop defined file line) none⟩
+
+/-- console columns under the built-in encoders: the level column is exactly the level encoder's text (table text, or
+    the table text inside the colour escape), the name column the logger name, the caller column `file:line` with the
+    documented trimming; each present under the documented condition, in the documented order -/
+theorem console_builtin_columns (c : Cfg) (lk : LvlEnc) (ck : CallerEnc) (level : Int) (time : Option TimeV)
+    (timeC : Option Bytes) (name : Bytes) (file : Bytes) (line : Int) (function message stack : Bytes) :
+    columns c (builtinEnt lk ck level time name true file line function message stack)
+        (builtinCols lk ck level timeC name true file line) =
+      (if !c.timeKey.isEmpty && time.isSome then optL timeC else []) ++
+      (if !c.levelKey.isEmpty then [levelText lk level] else []) ++
+      (if !name.isEmpty && !c.nameKey.isEmpty then [name] else []) ++
+      ((if !c.callerKey.isEmpty then [callerText ck true file line] else []) ++
+       (if !c.functionKey.isEmpty then [function] else [])) := by
+  simp [columns, builtinEnt, builtinCols, colOf, colText, lvlRes, nameRes, nameFull, callerRes, optL]
+
+/-- `EpochNanosTimeEncoder` column: the decimal of UnixNano -/
+theorem console_nanos_column (o : SubRes) (n : Int) : colOf (timeRes true o n) none = some (fmtInt n) := rfl
+
+/-- the level column determines the level (all 256 values, every level encoder) -/
+theorem console_level_column_injective (k : LvlEnc) :
+    ∀ a ∈ allLevels, ∀ b ∈ allLevels, colOf (lvlRes (some k) .noop a) none = colOf (lvlRes (some k) .noop b) none → a = b := by
+  intro a ha b hb h
+  simp only [colOf, lvlRes, colText, Option.orElse, Option.some.injEq] at h
+  exact levelText_inj k a ha b hb h
+
+/-- non-vacuity: coloured capital level, short caller -/
+example :
+    consoleLine ⟨[109], [108], [], [], [99], [], [], [], false⟩ []
+      (builtinEnt .capitalColor .short 1 none [] true [97, 47, 98, 47, 99] 7 [] [104, 105] [])
+      (builtinCols .capitalColor .short 1 none [] true [97, 47, 98, 47, 99] 7) [] [] =
+    [27, 91, 51, 51, 109, 87, 65, 82, 78, 27, 91, 48, 109, 9, 98, 47, 99, 58, 55, 9, 104, 105, 10] := by decide +kernel
+
+end SubEncoders
+/-! ## (END block `subenc`) -/
 
 end ZapVerif.C16
